@@ -803,21 +803,28 @@ impl TypeId {
         tycker.err_p_to_k(res)
     }
     pub fn unroll(self, tycker: &mut Tycker<'_>) -> Result<TypeId> {
+        self.unroll_opening(tycker, &mut Vec::new())
+    }
+    /// `opened` lists the seals already opened on the way here: a seal that leads back to itself
+    /// without passing a type former (`def L : VType = L`) stays sealed instead of being opened
+    /// forever.
+    fn unroll_opening(self, tycker: &mut Tycker<'_>, opened: &mut Vec<AbstId>) -> Result<TypeId> {
         let kd = tycker.statics.type_kind(self);
         let env = tycker.statics.env_at(self);
         let res = match tycker.type_filled(&self)?.to_owned() {
             | Type::Abst(abst) => {
-                match tycker.statics.seals.get(&abst) {
-                    | Some(ty) => {
-                        ty.unroll(tycker)?
+                match tycker.statics.seals.get(&abst).copied() {
+                    | Some(ty) if !opened.contains(&abst) => {
+                        opened.push(abst);
+                        ty.unroll_opening(tycker, opened)?
                     }
-                    | None => self,
+                    | Some(_) | None => self,
                 }
             }
             | Type::App(ty) => {
                 // congruence rule
                 let App(ty1, ty2) = ty;
-                let ty1_ = ty1.unroll(tycker)?;
+                let ty1_ = ty1.unroll_opening(tycker, opened)?;
                 if ty1 == ty1_ {
                     self
                 } else {
@@ -849,9 +856,11 @@ impl TypeId {
             | Type::Data(_)
             | Type::CoData(_) => self,
             | Type::Proj(Proj(head, name)) => {
-                let head = head.unroll(tycker)?;
+                let head = head.unroll_opening(tycker, opened)?;
                 match tycker.type_filled(&head)?.to_owned() {
-                    | Type::Named(Named(found, inner)) if found == name => inner.unroll(tycker)?,
+                    | Type::Named(Named(found, inner)) if found == name => {
+                        inner.unroll_opening(tycker, opened)?
+                    }
                     | _ => {
                         let payload_kind = tycker.statics.type_kind(self);
                         Alloc::alloc(tycker, Proj(head, name), payload_kind, &env)
